@@ -34,8 +34,19 @@ def gen(rng, thorough):
         opts["penalty"] = float(rng.choice([1, 2]))
     elif stretch or rng.random() < 0.15:
         opts["penalty"] = rng.choice([0.1, 0.25, 0.5])      # below 1: the squared penalty is smaller than the penalty
-    if rng.random() < 0.2:
-        opts["psi"] = rng.choice([1, (1, 0, 1, 0), (0, 1, 0, 1)])
+    if rng.random() < 0.3:
+        opts["psi"] = rng.choice([1, (1, 0, 1, 0), (0, 1, 0, 1), (0, 1, 0, 0), (0, 2, 0, 0), (1, 0, 0, 0), (0, 0, 1, 1)])
+        p_ = opts["psi"]
+        if isinstance(p_, tuple) and p_[1] > 0 and lq > p_[1] + 1 and rng.random() < 0.7:
+            # a query whose tail only matches when it is skipped: the full-query lower bound is far above the relaxed
+            # distance of the candidates that lack that tail
+            for j in range(1, p_[1] + 1):
+                for d_ in range(nd):
+                    q[(lq - j) * nd + d_] += 5
+        elif isinstance(p_, tuple) and p_[0] > 0 and lq > p_[0] + 1 and rng.random() < 0.7:
+            for j in range(p_[0]):
+                for d_ in range(nd):
+                    q[j * nd + d_] -= 5
     return nd, q, cands, opts
 
 
